@@ -99,3 +99,24 @@ def cell(a: Arr, base="i"):
     if all(len(t) == 1 for t in idx):
         return tuple(t[0] for t in idx)
     return idx
+
+
+def vec_table(name, shape, nan_fn=None):
+    """rank-3 table of abstract mode-shape vectors: shape (n0, n1, L)."""
+    c = cur()
+    n0, n1, L = shape
+    T = z3.Function(c.fresh_name(name), z3.IntSort(), z3.IntSort(), sym.VecSort)
+
+    def fn(idx):
+        return sym.vec_comp(T(zi(idx[0][0]), zi(idx[1][0])), idx[2][0])
+    a = Arr(((n0,), (n1,), (L,)), fn, "complex", label=name)
+    a.vecfn = lambda lead: T(zi(lead[0][0]), zi(lead[1][0]))
+    a.fresh = False
+    return a
+
+
+def vec_of(a):
+    """abstract vector of a rank-1 array (must carry one)."""
+    if isinstance(a, Arr) and a.ndim == 1 and a.vecfn is not None:
+        return a.vecfn(())
+    return None
